@@ -130,8 +130,12 @@ def run_case(rec, ptype, cls, data, pattern):
         'T' if b else 'F' for b in pattern)))
     # round trip through both representations, decoded by the real decoder
     want = gen.expected_roundtrip(data)
-    for b64 in ([False, True] if gen.is_binary(data) else [True]):
-        wire = gen.ref_encode(ptype, data, b64)
+    for b64 in ([False, True, 'bytearray'] if gen.is_binary(data)
+                else [True]):
+        wire = gen.ref_encode(ptype, data, bool(b64) and b64 is True)
+        if b64 == 'bytearray':
+            # a binary frame may be handed over as a bytearray
+            wire = bytearray(wire)
         rec.count('roundtrip')
         try:
             back = packet.Packet(encoded_packet=wire)
